@@ -143,6 +143,11 @@ def c20_1(ctx):
     fr = sym.exits_formula(w, _is_raise_vfe)
     s = sym.must_set(fr, U, E) if fr is not False else E
     want = iv(("s", 1), None)
+    if s == E and (fr is False or not gi.involves_subject(fr)):
+        # the size is measured some other way (a stream position, a helper): nothing this rule can put an interval on
+        unread = [o for e in w.exits for o in (gi.f_opaques(e.cond) if e.cond not in (True, False) else []) if isinstance(o, str) and "MAX_TX_SIZE" in o]
+        if unread or fr is False:
+            raise Undecided("Tx._check_size_limit compares `%s` with the limit; this rule reads len(self.as_bin(..)) only" % (unread[0][:80] if unread else "nothing it can read"))
     ctx.check(s == want, "size-limit", ctx.where(f), "Tx._check_size_limit: sizes rejected are %s, property requires exactly %s" % (s.fmt("MAX_TX_SIZE"), want.fmt("MAX_TX_SIZE")), sample={"subject": "len(self.as_bin())", "rejected": s.fmt("MAX_TX_SIZE")})
     val = it.getattr(it.get(ctx.p.module(TX).name, "Tx"), "MAX_TX_SIZE")
     ctx.check(val == 1000000, "MAX_TX_SIZE", "%s:1" % TX, "Tx.MAX_TX_SIZE evaluates to %r, expected 1000000" % (val,))
